@@ -108,9 +108,10 @@ def extract_quic_packet(in_packet: Packet, isserver, guessed_dcid: bytes = None,
                     case QuicPacketType.VERSION_NEG:
                         header_parts = struct.unpack_from(fmt_string + "ssss", datagram_data)
                         packet = LongQuicPacket(packet_type=QuicPacketType.VERSION_NEG, version=version, dcid_len=dcid_len,
-                                              dcid=dcid, scid_len=scid_len, scid=scid, supported_version=header_parts[-1:-5],
+                                              dcid=dcid, scid_len=scid_len, scid=scid, supported_version=b"".join(header_parts[-4:]),
                                               first_byte=header_parts[0], ts=in_packet.timestamp, isserver=isserver)
                         packet_buf.append(packet)
+                        total_packet_len = len(datagram_data)  # a Version Negotiation packet fills its datagram
 
                     case QuicPacketType.INITIAL:  # Initial packet
 
